@@ -177,6 +177,14 @@ def run(spec, ctx):
             h = "%08X" % eid
             k = rng.randrange(8)
             cands += [h[:k] + "?" + h[k + 1:], "*" + h[1:], h[:7] + "*", "[%s]%s" % (h[0], h[3:]), "0x" + h[:k] + "?" + h[k + 1:]] * 1
+            # the id of a file spelled so that a lenient normaliser (replace() instead of a prefix test, int(s, 16), strip())
+            # would collapse it to the real id: the stated rule - optional 0x prefix, then exactly the eight characters
+            # that occur in the file name - matches none of them
+            lenient = [h[:k] + "0x" + h[k:], "0x0x" + h, "0X" + h[:4] + "0X" + h[4:], h[:4] + "_" + h[4:], " " + h, h + " ",
+                       "+" + h, "0x+" + h, h + "h", "0x" + h + "\n", "\t" + h, h[:7] + "_" + h[7:], "0x_" + h, "00x" + h,
+                       h.replace("0", "0x0", 1) if "0" in h else h + "0x"]
+            cands += rng.sample(lenient, 3)
+            ctx.count("delete.leniently_readable_ids", 3)
             subs = sorted({os.path.dirname(t) for t in d.entries_rel()} - {""}) if hasattr(d, "entries_rel") else []
             nested_names = [k2 for k2 in dirs.snapshot(d.root) if "/" in k2.rstrip("/") and not k2.endswith("/")]
             for nn in nested_names[:2]:
@@ -194,7 +202,7 @@ def run(spec, ctx):
             short = nm[k:k + rng.choice([2, 3, 4])]
             if not any(short.rjust(8, "0") in t.name for t in top):
                 cands += [short.rjust(8, "0"), "0x" + short.rjust(8, "0")] * 2
-        for idarg in rng.sample(cands, min(3, len(cands))):
+        for idarg in rng.sample(cands, min(4, len(cands))):
             observe(ctx, d, ["-p", d.root, "-d", idarg], "delete", idarg, i)
         if rng.random() < 0.5:
             if rng.random() < 0.6:
